@@ -1,5 +1,6 @@
 import IxpeVerif.Model.Select
 import IxpeVerif.Gen.Masks
+import IxpeVerif.Gen.SelectGen
 /-!
 # C09 — xpselect keeps exactly the rows that satisfy the requested predicate (core Lean only)
 -/
@@ -156,6 +157,39 @@ theorem gen_time_mask_eq_model (c : Cfg) (r : Row) : Gen.time_selection_mask r.t
 theorem gen_phase_mask_eq_model (c : Cfg) (r : Row) : Gen.phase_selection_mask r.phase c.pmin c.pmax c.pinvert = phaseMask c r := by
   unfold Gen.phase_selection_mask phaseMask geOpt ltOpt
   cases c.pmin <;> cases c.pmax <;> cases c.pinvert <;> simp
+
+/-! ### T-tie of `select()`: the mask the method assembles stage by stage, regenerated from the source and read for one row (`Gen/SelectGen.lean`,
+translator/selecttrans.py), is the model's `mask` -/
+
+/-- **the generated `select()` keeps a row iff the model's mask holds**, for every configuration and every row: first stage (time, else phase,
+else the boolean array, else everything), energy window on the measured or Monte Carlo energy with its inversion, closed cone / annulus radii,
+region with its inversion, every listed source identifier -/
+theorem energy_stage (emin emax : Option Int) (einvert : Bool) (e : Int) :
+    Gen.invIf einvert (Gen.optAnd emax (fun b => decide (e < b)) (Gen.optAnd emin (fun b => decide (b ≤ e)) true)) =
+      xor (geOpt emin e && ltOpt emax e) einvert := by
+  cases emin <;> cases emax <;> cases einvert <;> simp [Gen.invIf, Gen.optAnd, geOpt, ltOpt]
+
+theorem cone_stage (rad innerrad : Option Int) (x : Int) (m : Bool) :
+    (if (rad.isSome || innerrad.isSome) = true then Gen.optAnd innerrad (fun b => decide (b ≤ x)) (Gen.optAnd rad (fun b => decide (x ≤ b)) m) else m) =
+      (m && (leOpt rad x && geOpt innerrad x)) := by
+  cases rad <;> cases innerrad <;> simp [Gen.optAnd, leOpt, geOpt, Bool.and_assoc]
+
+theorem reg_stage (useReg reginvert x m : Bool) :
+    (if useReg = true then (m && Gen.invIf reginvert x) else m) = (m && (if useReg = true then xor x reginvert else true)) := by
+  cases useReg <;> cases reginvert <;> cases x <;> simp [Gen.invIf]
+
+theorem gen_select_row_eq_model (c : Cfg) (r : Row) :
+    Gen.select_row r.time r.phase r.energy r.mcEnergy r.sep r.mcSep r.inReg r.mcInReg r.inMask r.src c.tmin c.tmax c.tinvert c.pmin c.pmax c.pinvert
+      c.emin c.emax c.einvert c.mc c.rad c.innerrad c.useReg c.reginvert c.srcids c.useMask = mask c r := by
+  simp only [Gen.select_row, gen_time_mask_eq_model, gen_phase_mask_eq_model, energy_stage, cone_stage, reg_stage]
+  simp only [mask, firstMask, timeSelected, phaseSelected, energyMask, coneMask, regMask, srcMask, Bool.and_assoc]
+  rfl
+
+/-- **xpselect keeps exactly the rows that satisfy the predicate, on the current source** -/
+theorem gen_select_iff (c : Cfg) (rows : List Row) (r : Row) :
+    r ∈ rows.filter (fun r => Gen.select_row r.time r.phase r.energy r.mcEnergy r.sep r.mcSep r.inReg r.mcInReg r.inMask r.src c.tmin c.tmax c.tinvert c.pmin c.pmax c.pinvert
+      c.emin c.emax c.einvert c.mc c.rad c.innerrad c.useReg c.reginvert c.srcids c.useMask) ↔ r ∈ select c rows := by
+  simp only [select, List.mem_filter, gen_select_row_eq_model]
 
 /-- non-vacuity: a two-sided window on a concrete file passes validation and keeps the boundary row at tmin, drops the one at tmax -/
 example : validate { tmin := some 2, tmax := some 5 } 0 10 0 100 = none ∧
